@@ -720,3 +720,12 @@ class Draw:
     def __init__(self, figs: List[Fig], main: Optional[Poly] = None) -> None:
         T(self, locals())
         self.figs, self.main = figs, main
+
+
+# ---- C17: Unions whose unused alternative fails silently, before an int
+class Labels:
+    def __init__(self, label: Union[int, str], tag2: Union[float, str],
+                 count: int, size: int, ratio: float = 1.0) -> None:
+        T(self, locals())
+        self.label, self.tag2, self.count = label, tag2, count
+        self.size, self.ratio = size, ratio
